@@ -61,6 +61,7 @@ def cases(draw, noop=False):
         segs.append([raw_values(draw, t, n) for _k in range(nchunks)])
     return {'type': t, 'graph': graph, 'level': level, 'other': other, 'status': status,
             'with_count': draw(st.booleans()), 'other_count': draw(st.booleans()), 'segs': segs,
+            'order': draw(st.sampled_from(['parents_first', 'parents_first', 'channel_first', 'parents_in_last_segment'])),
             'be': draw(st.integers(0, 3)) == 0}
 
 
@@ -96,9 +97,16 @@ def build_file(case):
     for si, chunks in enumerate(case['segs']):
         n = len(chunks[0]) // tsize(t) if chunks else 0
         entries = [{'path': p, 'hdr': 'full', 'type': t, 'n': n, 'props': props['channel'] if si == 0 else []}]
-        if si == 0:
-            entries.insert(0, {'path': make_path('g'), 'hdr': 'nodata', 'props': props['group']})
-            entries.insert(0, {'path': '/', 'hdr': 'nodata', 'props': props['root']})
+        order = case.get('order', 'parents_first')
+        g_ent = {'path': make_path('g'), 'hdr': 'nodata', 'props': props['group']}
+        r_ent = {'path': '/', 'hdr': 'nodata', 'props': props['root']}
+        last = si == len(case['segs']) - 1
+        if order == 'parents_first' and si == 0:
+            entries = [r_ent, g_ent] + entries
+        elif order == 'channel_first' and si == 0:
+            entries = entries + [g_ent, r_ent]          # the channel is met before its group and the root
+        elif order == 'parents_in_last_segment' and last:
+            entries = entries + [g_ent, r_ent]          # group / root objects (and their scaling) only appear later
         segs.append({'be': case['be'], 'interleaved': False, 'entries': entries, 'active': [[p, t, n]],
                      'nchunks': len(chunks), 'data': {p: list(chunks)}})
     return {'segments': segs}, expected
